@@ -77,3 +77,23 @@ def run_text(ctx):
         if got != exp or parts[-2] != "END":
             ctx.fail("text-skip-lands", "%s after token %d of %r (cap %s) continues with %s, token counting says %s" % (fn, i, d, cases[k].split("\t")[1], " ".join(got[:6]), " ".join(exp[:6])), [cases[k]], [o], " ".join(exp))
     ctx.count("text_skip_cases", len(cases))
+
+    # Known finding (Coq: C09_text_quote_in_word_refuted, C09_text_varexpr_brace_refuted): an unquoted token that
+    # holds a double quote, and an interpolated expression @[..] that holds a brace, are ONE token for the tokenizer
+    # but quote / brace bytes for skip_container, so the skip does not land where token counting lands.
+    probes = [b'a={ x"y } z"w } q=1', b'a={ @[ } ] b } q=1']
+    pcases = ["tr.slice\t%s" % hexs(d) for d in probes] + ["tr.skip\tslice\t-\t%s\t3" % hexs(d) for d in probes]
+    p_impl, _ = ctx.correspond("text_skip_probe", pcases)
+    pb = len(p_impl) - len(pcases)
+    for j, d in enumerate(probes):
+        S = split_out(p_impl[pb + j])
+        o = p_impl[pb + len(probes) + j]
+        if S is None:
+            continue
+        k = match_close(S[0], 2)
+        exp = S[0][k + 1:] if k is not None else None
+        parts = o.split(" ")
+        got = parts[1:-2] if parts[0].startswith("SKIP@") else None
+        if exp is not None and got != exp:
+            ctx.fail("text-skip-unquoted-special", "skip_container after token 2 of %r continues with %s, token counting says %s" % (d, " ".join((got or [o])[:6]), " ".join(exp[:6])), [pcases[len(probes) + j]], [o], " ".join(exp))
+
